@@ -369,11 +369,17 @@ structure IOSt where
   ended : Bool            -- the read loop was left
   deriving Repr
 
-/-- one `read()` followed by the flush at the end of the loop body -/
+/-- a frame consumed without a reply puts nothing into the write buffer -/
+def Action.isDropped : Action → Bool
+  | .dropped _ => true
+  | _ => false
+
+/-- one `read()` followed by the flush at the end of the loop body (`if !write_buffer.is_empty()`) -/
 def ioRead (cfg : Config) (failAt : Option Nat) (s : IOSt) (chunk : Bytes) : IOSt :=
   if s.ended then s
   else
-    let (st', acts) := onRead cfg s.st chunk
+    let (st', acts0) := onRead cfg s.st chunk
+    let acts := acts0.filter (fun a => !a.isDropped)
     let w := s.wbuf ++ acts
     if st'.closed then
       -- buffer overflow: `let _ = write_all(..)` (result ignored), `break` — the write buffer is NOT
